@@ -225,6 +225,163 @@ def onebit_stores(ck, prog):
         r.skip('no one-bit flag is written in %s' % ', '.join(sorted(files))) if hasattr(r, 'skip') else None
 
 
+
+# ---------------------------------------------------------------------------
+# boundary comparisons against named constants
+
+_SWAP = {'<': '>', '>': '<', '<=': '>=', '>=': '<=', '==': '==', '!=': '!='}
+_CLASS = {'<': 'below-excl', '>=': 'below-excl', '<=': 'below-incl', '>': 'below-incl', '==': 'eq', '!=': 'eq'}
+
+
+def comparison_profile(f):
+    """{constant name: {strictness class: [lines]}} for every comparison of something with a named
+    integer constant (macro or enumerator) in function f.  `x < K` and `x >= K` are the same boundary seen
+    from its two sides; `x <= K` / `x > K` is the other boundary."""
+    out = {}
+    tops = []
+    for b, i, ev in f.events():
+        if ev['ev'] == 'decl':
+            tops.append((ev.get('init'), ev['line']))
+        else:
+            tops.append((ev.get('e'), ev['line']))
+    for blk in f.blocks.values():
+        t = blk.get('term')
+        if t and t.get('cond') is not None:
+            tops.append((t['cond'], t['line']))
+    seen = set()
+    for top, line in tops:
+        if not isinstance(top, dict):
+            continue
+        for x in walk(top):
+            if x.get('k') != 'bin' or x.get('op') not in _CLASS:
+                continue
+            ln = is_int(x['l']) and x['l'].get('name')
+            rn = is_int(x['r']) and x['r'].get('name')
+            if bool(ln) == bool(rn):
+                continue
+            name = rn or ln
+            if name.startswith('_dbus_assert') or name in ('TRUE', 'FALSE', 'NULL'):
+                continue
+            op = x['op'] if rn else _SWAP[x['op']]
+            sig = (name, op, line)
+            if sig in seen:
+                continue
+            seen.add(sig)
+            out.setdefault(name, {}).setdefault(_CLASS[op], []).append(line)
+    return out
+
+
+def boundary_comparisons(ck, prog):
+    pid = ck.pid
+    files = anchor_files(pid)
+    path = os.path.join(VERIF, 'engine', 'baseline_comparisons.json')
+    if not os.path.exists(path):
+        return
+    with open(path) as fh:
+        base = json.load(fh).get(getattr(ck, 'variant', 'A'), {})
+    r = ck.rule(pid + '.C', 'boundaries against named constants keep their side in this property\'s files: where a '
+                'function compares a value with a named limit / code (macro or enumerator), equality with the '
+                'constant falls on the same side as in the reference tree (`x > K` / `x <= K` versus `x >= K` / '
+                '`x < K`; `==` / `!=` stay equality tests)', 'TAB',
+                breaks='an off-by-one at a limit or a code range: the value equal to the constant is accepted where '
+                       'it was rejected (or the reverse)', floor=5)
+    n = 0
+    for f in prog.funcs.values():
+        if f.file not in files or not prog.is_production(f):
+            continue
+        ref = base.get(f.file, {}).get(f.name)
+        if not ref:
+            continue
+        cur = comparison_profile(f)
+        for name, classes in cur.items():
+            if name not in ref:
+                continue
+            n += 1
+            key = '%s:%s' % (f.name, name)
+            # per side: how many comparisons; a swap shows as one side gaining what the other lost
+            refc = ref[name] if isinstance(ref[name], dict) else {c: 1 for c in ref[name]}
+            gained = [c for c in classes if len(classes[c]) > refc.get(c, 0)]
+            lost = [c for c in refc if refc[c] > len(classes.get(c, []))]
+            extra = set(gained) if (gained and lost) or (set(classes) - set(refc)) else set()
+            if not extra:
+                r.ok(key)
+            else:
+                cl = sorted(extra)[0]
+                r.violation(key, f.name, f.file, classes[cl][0],
+                            '%s compares with %s as %s; the reference tree has %s for this function (the value equal '
+                            'to %s changed sides)' % (
+                                f.name, name, cl, ', '.join('%d x %s' % (v, k) for k, v in sorted(refc.items())), name))
+    r.note('%d (function, constant) pairs compared with the reference' % n)
+
+
+import re as _re
+_NAME_RE = _re.compile(r'^[A-Za-z_][A-Za-z0-9_.]*$')
+
+
+def constant_args_profile(f):
+    """{callee: {constant name: count}} for named integer / string-macro constants passed as call arguments."""
+    out = {}
+    for b, i, c in f.calls():
+        cal = c.get('callee')
+        if not cal or cal.startswith('_dbus_verbose') or cal.startswith('_dbus_real_assert') or cal == '_dbus_warn':
+            continue
+        for a in c['args']:
+            x = a
+            while isinstance(x, dict) and x.get('k') in ('paren', 'cast') and isinstance(x.get('e'), dict):
+                x = x['e']
+            nm = None
+            if is_int(x) and x.get('name'):
+                nm = x['name']
+            elif x.get('k') == 'str' and isinstance(x.get('v'), str) and '.' in x['v'] and \
+                    _NAME_RE.match(x['v']):
+                nm = 'str:' + x['v']          # a dotted name literal (error name, interface, bus name)
+            if nm and not nm.startswith('_dbus_assert') and nm not in ('TRUE', 'FALSE', 'NULL'):
+                d = out.setdefault(cal, {})
+                d[nm] = d.get(nm, 0) + 1
+    return out
+
+
+def constant_arguments(ck, prog):
+    pid = ck.pid
+    files = anchor_files(pid)
+    path = os.path.join(VERIF, 'engine', 'baseline_constargs.json')
+    if not os.path.exists(path):
+        return
+    with open(path) as fh:
+        base = json.load(fh).get(getattr(ck, 'variant', 'A'), {})
+    r = ck.rule(pid + '.K', 'named constants handed to callees keep their identity in this property\'s files: where a '
+                'function passes a named constant (type code, error name, header field, flag, reply code) to a callee, '
+                'it is not silently replaced by a different constant of the same call (a swap: one name gone, another '
+                'new, same callee, same function)', 'TAB',
+                breaks='a value is written or read with the wrong type code, a request is refused with the wrong '
+                       'error name, the wrong header field or flag is used', floor=5)
+    n = 0
+    for f in prog.funcs.values():
+        if f.file not in files or not prog.is_production(f):
+            continue
+        ref = base.get(f.file, {}).get(f.name)
+        if not ref:
+            continue
+        cur = constant_args_profile(f)
+        for cal, consts in cur.items():
+            if cal not in ref:
+                continue
+            n += 1
+            gone = {k: v - consts.get(k, 0) for k, v in ref[cal].items() if v > consts.get(k, 0)}
+            new = {k: v - ref[cal].get(k, 0) for k, v in consts.items() if v > ref[cal].get(k, 0)}
+            key = '%s:%s' % (f.name, cal)
+            if gone and new and sum(gone.values()) == sum(new.values()):
+                line = next((c['line'] for b, i, c in f.calls(cal)), f.line)
+                r.violation(key, f.name, f.file, line,
+                            '%s now passes %s to %s where the reference tree passes %s' % (
+                                f.name, ', '.join(sorted(new)), cal, ', '.join(sorted(gone))))
+            else:
+                r.ok(key)
+    r.note('%d (function, callee) pairs compared with the reference' % n)
+
+
 def run(ck, prog):
     error_discipline(ck, prog)
     onebit_stores(ck, prog)
+    boundary_comparisons(ck, prog)
+    constant_arguments(ck, prog)
